@@ -6,6 +6,8 @@ From CV Require Import Packed.PackedProofs.
 From CV Require Import Packed.ReaderProofs.
 From CV Require Import Packed.ReadCallProofs.
 From CV Require Import Packed.ReadCallProofs2.
+From CV Require Import Packed.ReadFull.
+From CV Require Import Packed.ReadFullProofs.
 Open Scope Z_scope.
 
 (* every word-aligned byte string: the packed form decodes back to it, both with the
@@ -127,3 +129,45 @@ Print Assumptions C13_read_calls_bytes_ok.
 (* non-vacuity: ReadCallProofs2.read_calls_prefix_example (ex_inp cut inside its literal run:
    5 words of complete items + the tag word and one literal word of the cut item are handed
    out, then UnexpectedEOF), read_call_bytes_ok_example *)
+
+(* ---- round 3: io.ReadFull-style consumers of Reader.Read (capnp.Decoder reads this way) ---- *)
+
+(* a Read call that returns an error (EOF or UnexpectedEOF) returned strictly fewer bytes than
+   requested: every state, every input, every oracle, repaired or as-found code.  Hence
+   io.ReadFull, which drops an error that comes with a full buffer, never drops one here. *)
+Theorem C13_read_call_err_not_full : forall strict orc k st inp n k' st' inp' got e,
+  read_call strict orc k st inp n = (k', st', inp', got, Some e) -> (length got < n)%nat.
+Proof. exact read_call_err_not_full. Qed.
+Print Assumptions C13_read_call_err_not_full.
+
+(* every input, every sequence of io.ReadFull request sizes (request j asks for S (sizes j) >= 1
+   bytes), every fast-path and short-read oracle, any fuel above the bound: the concatenation of
+   what the ReadFull calls return is the one-shot decoder's output and the final error is
+   io.ReadFull's verdict on it ([rf_verdict]: EOF iff the output ends on a request boundary,
+   else UnexpectedEOF -- ReadAtLeast's own mapping); a rejected input ends with UnexpectedEOF,
+   never with a clean EOF *)
+Theorem C13_readfull_agrees : forall orc sizes inp, bytes_ok inp ->
+  forall fuel, (2304 * length inp + 1 <= fuel)%nat ->
+  match unpack inp with
+  | Some out => readfull_all (read_rd true orc) fuel 0 b_init inp sizes 0
+                = Some (out, rf_verdict (length out) sizes 0 (length out))
+  | None => exists o, readfull_all (read_rd true orc) fuel 0 b_init inp sizes 0
+                      = Some (o, UnexpectedEOF)
+  end.
+Proof. exact readfull_agrees. Qed.
+Print Assumptions C13_readfull_agrees.
+
+(* one byte per ReadFull: exactly the shape of C13_read_agrees *)
+Theorem C13_readfull_agrees_bytes : forall orc inp, bytes_ok inp ->
+  match unpack inp with
+  | Some out => readfull_all (read_rd true orc) (read_fuel inp) 0 b_init inp (fun _ => 0%nat) 0
+                = Some (out, EOF)
+  | None => exists o, readfull_all (read_rd true orc) (read_fuel inp) 0 b_init inp
+                                   (fun _ => 0%nat) 0 = Some (o, UnexpectedEOF)
+  end.
+Proof. exact readfull_agrees_bytes. Qed.
+Print Assumptions C13_readfull_agrees_bytes.
+(* non-vacuity: ReadFullProofs.readfull_example; refutation of the Read variant that returns a
+   parked error together with the data and clears it (seeded change C13-r4-1):
+   ReadFullProofs.readfull_eager_refuted -- the ReadFull consumer then accepts [1;7;0], a stream
+   cut before a run-count byte, with a clean EOF *)
